@@ -11,6 +11,7 @@ from rules.c14 import Tokenizer
 
 RULES = {
     "R-15.1": "a record type lower-cases the names in its RDATA iff it is listed in RFC 4034 6.2 as amended by RFC 6840 5.1 (dataflow of _to_wire's canonicalize parameter into every embedded Name.to_wire)",
+    "R-15.5": "Name.to_wire(canonicalize=True) folds every label it emits, the origin's included: each raw label emission sits on the not-canonicalize side of a `canonicalize` test and every nested to_wire/to_digestable call passes canonicalize on",
     "R-15.2": "canonical forms are uncompressed: to_digestable reaches _to_wire with compress=None and no codec manufactures a compression table",
     "R-15.3": "RRSIG signing input, DS digest input, NSEC3 hash and ZONEMD digest are composed as RFC 4034 3.1.8.1 / 5.1.4, RFC 5155 5, RFC 8976 3.3 prescribe",
     "R-15.4": "the NSEC chain walks sorted(names), skips names beneath the current delegation, and builds bitmaps from the node's types plus RRSIG and NSEC",
@@ -142,6 +143,34 @@ def run(model, rep, tier):
     rep.check("if compress is not None" in t or "if compress:" in t or "compress is None" in t, "R-15.2", ntw.qualname, where(ntw, ntw.node), "Name.to_wire compresses only when a table is given",
               "Name.to_wire no longer makes compression conditional on the table", stmt="conditional-compress")
 
+    # ---------------------------------------------------------------- R-15.5
+    cfg = CFG(ntw.node, implicit_exc=False)
+    loopvars = {src(n.target) for n in ast.walk(ntw.node) if isinstance(n, ast.For) and isinstance(n.target, ast.Name) and "labels" in src(n.iter)}
+    ctests = [t_ for t_ in cfg.nodes if t_.kind == "test" and atoms(normalise_compare(t_.ast.test)) == [("canonicalize", "truthy", "")]]
+    n_emit = 0
+    for n in cfg.stmts():
+        raw = None
+        a = n.ast
+        if isinstance(a, ast.AugAssign) and isinstance(a.op, ast.Add) and isinstance(a.value, ast.Name) and a.value.id in loopvars:
+            raw = a
+        elif isinstance(a, ast.Expr) and isinstance(a.value, ast.Call) and isinstance(a.value.func, ast.Attribute) and a.value.func.attr in ("write", "extend") and a.value.args \
+                and isinstance(a.value.args[0], ast.Name) and a.value.args[0].id in loopvars:
+            raw = a
+        if raw is None:
+            continue
+        n_emit += 1
+        okk = any(cfg.edge_dominated(n.id, {(t_.id, "f")}) and any(".lower()" in src(b) for b in t_.ast.body) for t_ in ctests)
+        rep.check(okk, "R-15.5", ntw.qualname, where(ntw, raw), f"`{src(raw)}` only when not canonicalizing; the other arm folds to lower case",
+                  f"`{src(raw)}` emits a label as written even when canonicalize is set: digests and signatures over names with upper-case letters are wrong", stmt="raw-label " + src(raw))
+    n_nested = 0
+    for c in ast.walk(ntw.node):
+        if isinstance(c, ast.Call) and isinstance(c.func, ast.Attribute) and c.func.attr in ("to_wire", "to_digestable") and not (isinstance(c.func.value, ast.Name) and c.func.value.id == "struct"):
+            n_nested += 1
+            passes = any(k.arg == "canonicalize" and src(k.value) == "canonicalize" for k in c.keywords) or (len(c.args) >= 4 and src(c.args[3]) == "canonicalize")
+            rep.check(passes, "R-15.5", ntw.qualname, where(ntw, c), f"`{src(c)[:50]}` passes canonicalize on",
+                      f"`{src(c)[:50]}` encodes part of the name without passing `canonicalize` on: that part (e.g. the origin of a relative name) is not folded in the canonical form", stmt="nested " + src(c.func))
+    rep.floor("R-15.5", n_emit + n_nested, 3)
+
     # ---------------------------------------------------------------- R-15.3
     sd = model.func("dns.dnssec._make_rrsig_signature_data")
     tk = Tokenizer(sd.node)
@@ -246,6 +275,14 @@ def run(model, rep, tier):
 
 
 WITNESSES = [
+    {"id": "c15-origin-labels-not-folded", "rule": "R-15.5", "file": "dns/name.py", "expect": "fires",
+     "old": "                for label in origin.labels:\n                    out.append(len(label))\n                    if canonicalize:\n                        out += label.lower()\n                    else:\n                        out += label\n",
+     "new": "                out += origin.to_wire()\n"},
+    {"id": "c15-twin-origin-nested-canonical", "rule": "R-15.5", "file": "dns/name.py", "expect": "silent",
+     "old": "                for label in origin.labels:\n                    out.append(len(label))\n                    if canonicalize:\n                        out += label.lower()\n                    else:\n                        out += label\n",
+     "new": "                out += origin.to_wire(canonicalize=canonicalize)\n"},
+    {"id": "c15-file-branch-raw-label", "rule": "R-15.5", "file": "dns/name.py", "expect": "fires",
+     "old": "                    if canonicalize:\n                        file.write(label.lower())\n                    else:\n                        file.write(label)", "new": "                    file.write(label)"},
     {"id": "c15-lp-lowercased", "rule": "R-15.1", "file": "dns/rdtypes/ANY/LP.py", "expect": "fires",
      "old": "self.fqdn.to_wire(file, None, origin, False)", "new": "self.fqdn.to_wire(file, None, origin, canonicalize)"},
     {"id": "c15-nsec-lowercased", "rule": "R-15.1", "file": "dns/rdtypes/ANY/NSEC.py", "expect": "fires",
